@@ -125,7 +125,7 @@ type nstr string
 type nbytes []byte
 
 func runPU(c puCase, r *pb.Rec) error {
-	s := g.Window(string(c.S), len(c.S)+c.Base) // a window into a larger string: digits, letters, escapes as neighbours
+	s := g.Window(string(c.S), len(c.S)+c.Base)          // a window into a larger string: digits, letters, escapes as neighbours
 	in, intact := g.WindowBytes(c.S, len(c.S)+c.BitSize) // a window into a larger array (spare capacity behind it)
 	defer func() {
 		if e := intact(); e != nil {
